@@ -88,7 +88,9 @@ def _shard(arg):
             t.distinct("reject_sites", (label, offset))
         elif label == "accept" and case[1] != "id":
             t.distinct("accepted_mutants", case)
-        if problems:
+        if problems and label.startswith("reject:") and all("Exceeds the limit (4300 digits)" in p for p in problems):
+            t.known_finding("F12", {"case": case, "error": label})
+        elif problems:
             t.violation(problems[0], {"case": case})
         elif label.startswith("reject:"):
             t.sample(label, {"case": case})
